@@ -266,7 +266,7 @@ func (ex *Exec) modelOf(st *State, vals []*big.Int) []DrawValue {
 	for _, d := range st.draws {
 		dv := DrawValue{Kind: d.Kind}
 		switch d.Kind {
-		case "bytes", "rand":
+		case "bytes", "rand", "cbcdec":
 			b := make([]byte, len(d.ts))
 			for i := range d.ts {
 				b[i] = byte(vals[p].Uint64())
